@@ -36,7 +36,8 @@ BOUNDS = {"values": "Union of 8 types (CrossHair) / 19 literals (lpe)"}
 T0 = _dt.datetime(2020, 1, 1, tzinfo=_dt.timezone.utc)
 BATTERY = [0, 1, -1, 1.5, 0.0, True, False, b"", b"x", None, "", "x", [], [1], {}, {"a": 1}, (1,), T0, float("nan")]
 SLOTS = ("time", "measurement", "tag_key", "tag_value", "field_key", "field_value")
-ENTRIES = ("insert_measurement_arg", "insert_multiple_measurement_arg", "handle_name_insert", "ctor+nonevalue", "setter+nonevalue", "update_static+nonevalue", "update_callable+nonevalue", "ctor", "setter", "update_static", "update_all_static", "update_callable", "update_all_callable", "handle_update_static", "handle_update_callable", "insert_nonpoint", "insert_multiple_nonpoint", "ctor+other", "update_static+other", "update_all_static+other", "handle_update_static+other")
+ENTRIES = ("insert_measurement_arg", "insert_multiple_measurement_arg", "handle_name_insert", "ctor+nonevalue", "setter+nonevalue", "update_static+nonevalue", "update_callable+nonevalue", "ctor", "setter", "update_static", "update_all_static", "update_callable", "update_all_callable", "handle_update_static", "handle_update_callable", "insert_nonpoint", "insert_multiple_nonpoint", "ctor+other", "update_static+other", "update_all_static+other", "handle_update_static+other",
+           "ctor+pairs", "setter+pairs", "update_static+pairs", "update_all_static+pairs", "handle_update_static+pairs", "update_callable+pairs")
 
 
 def valid_for(slot, v):
@@ -127,6 +128,14 @@ def attempt(db, entry, slot, v):
             return ("skip", "only key slots")
         entry = entry[: -len("+nonevalue")]
         kw = {"tags": {v: None, "ok": "v"}} if slot == "tag_key" else {"fields": {"ok": 1.0, v: None}}
+    if entry.endswith("+pairs"):
+        # the tag / field set supplied as a list of (key, value) pairs instead of a mapping: dict.update() would
+        # take it, so the wrongly-typed key or value inside must still be rejected
+        if slot not in ("tag_key", "tag_value", "field_key", "field_value"):
+            return ("skip", "only tag/field slots")
+        entry = entry[: -len("+pairs")]
+        (name, d), = kw.items()
+        kw = {name: list(d.items())}
     companion = entry.endswith("+other")
     if companion:
         # the same call also carries a VALID value for another argument
